@@ -119,8 +119,24 @@ pub trait Engine: Sync {
         1
     }
     /// Does the (minimised) case match a known-finding signature?
-    fn matches_signature(&self, _case: &Self::Case, _v: &Violation, _sig: &Value) -> bool {
-        false
+    /// Default predicate: every string listed under "detail_contains" occurs in the violation detail
+    /// of the minimised case and, if "max_ops" is given, the serialised minimised case is at most
+    /// that many bytes long (a narrow signature keeps other violations of the same class reportable).
+    fn matches_signature(&self, case: &Self::Case, v: &Violation, sig: &Value) -> bool {
+        let needles = match sig.get("detail_contains").and_then(|x| x.as_array()) {
+            Some(a) if !a.is_empty() => a,
+            _ => return false,
+        };
+        if !needles.iter().all(|n| n.as_str().map(|s| v.detail.contains(s)).unwrap_or(false)) {
+            return false;
+        }
+        if let Some(max) = sig.get("max_case_bytes").and_then(|x| x.as_u64()) {
+            let len = serde_json::to_string(case).map(|s| s.len() as u64).unwrap_or(u64::MAX);
+            if len > max {
+                return false;
+            }
+        }
+        true
     }
 }
 
